@@ -535,7 +535,7 @@ class Beam(_Simu):
             options.extend(["N", "Ty", "Tz", "Mx", "My", "Mz"])
             options.extend(["Sxx", "Syy", "Szz", "Syz", "Sxz", "Sxy"])
 
-        options.extend(["Srain", "Stress"])
+        options.extend(["Strain", "Stress"])
 
         return options
 
@@ -623,6 +623,15 @@ class Beam(_Simu):
             Sigma_e = self._Calc_Sigma_e_pg(Epsilon_e_pg).mean(1)
             index = self._indexResult(result)
             values = Sigma_e[:, index]
+
+        elif result == "Strain":
+            # (Ne, [ux'], [ux', rz'] or [ux', rx', ry', rz'] (+ shear strains with Timoshenko))
+            values = np.asarray(self._Calc_Epsilon_e_pg(self.displacement).mean(1))
+
+        elif result == "Stress":
+            # (Ne, [Sxx], [Sxx, Syy, Sxy] or [Sxx, Syy, Szz, Syz, Sxz, Sxy])
+            Epsilon_e_pg = self._Calc_Epsilon_e_pg(self.displacement)
+            values = np.asarray(self._Calc_Sigma_e_pg(Epsilon_e_pg).mean(1))
 
         elif result in ["ux'", "rx'", "ry'", "rz'"]:
             Epsilon_e = self._Calc_Epsilon_e_pg(self.displacement).mean(1)
